@@ -91,6 +91,9 @@ Model/SharedCheck.vos Model/SharedCheck.vok Model/SharedCheck.required_vos: Mode
 Model/Canon.vo Model/Canon.glob Model/Canon.v.beautified Model/Canon.required_vo: Model/Canon.v Model/Term.vo
 Model/Canon.vio: Model/Canon.v Model/Term.vio
 Model/Canon.vos Model/Canon.vok Model/Canon.required_vos: Model/Canon.v Model/Term.vos
+Model/CanonLex.vo Model/CanonLex.glob Model/CanonLex.v.beautified Model/CanonLex.required_vo: Model/CanonLex.v Model/Term.vo Model/Canon.vo
+Model/CanonLex.vio: Model/CanonLex.v Model/Term.vio Model/Canon.vio
+Model/CanonLex.vos Model/CanonLex.vok Model/CanonLex.required_vos: Model/CanonLex.v Model/Term.vos Model/Canon.vos
 Model/Quote.vo Model/Quote.glob Model/Quote.v.beautified Model/Quote.required_vo: Model/Quote.v 
 Model/Quote.vio: Model/Quote.v 
 Model/Quote.vos Model/Quote.vok Model/Quote.required_vos: Model/Quote.v 
@@ -238,9 +241,12 @@ Props/C05.vos Props/C05.vok Props/C05.required_vos: Props/C05.v Model/GoInt.vos 
 Proofs/Canon.vo Proofs/Canon.glob Proofs/Canon.v.beautified Proofs/Canon.required_vo: Proofs/Canon.v Model/Term.vo Model/Canon.vo
 Proofs/Canon.vio: Proofs/Canon.v Model/Term.vio Model/Canon.vio
 Proofs/Canon.vos Proofs/Canon.vok Proofs/Canon.required_vos: Proofs/Canon.v Model/Term.vos Model/Canon.vos
+Proofs/CanonLex.vo Proofs/CanonLex.glob Proofs/CanonLex.v.beautified Proofs/CanonLex.required_vo: Proofs/CanonLex.v Model/Term.vo Model/Canon.vo Model/CanonLex.vo Proofs/Canon.vo
+Proofs/CanonLex.vio: Proofs/CanonLex.v Model/Term.vio Model/Canon.vio Model/CanonLex.vio Proofs/Canon.vio
+Proofs/CanonLex.vos Proofs/CanonLex.vok Proofs/CanonLex.required_vos: Proofs/CanonLex.v Model/Term.vos Model/Canon.vos Model/CanonLex.vos Proofs/Canon.vos
 Proofs/Quote.vo Proofs/Quote.glob Proofs/Quote.v.beautified Proofs/Quote.required_vo: Proofs/Quote.v Model/Quote.vo
 Proofs/Quote.vio: Proofs/Quote.v Model/Quote.vio
 Proofs/Quote.vos Proofs/Quote.vok Proofs/Quote.required_vos: Proofs/Quote.v Model/Quote.vos
-Props/C06.vo Props/C06.glob Props/C06.v.beautified Props/C06.required_vo: Props/C06.v Model/Term.vo Model/Canon.vo Proofs/Canon.vo Model/Quote.vo Proofs/Quote.vo
-Props/C06.vio: Props/C06.v Model/Term.vio Model/Canon.vio Proofs/Canon.vio Model/Quote.vio Proofs/Quote.vio
-Props/C06.vos Props/C06.vok Props/C06.required_vos: Props/C06.v Model/Term.vos Model/Canon.vos Proofs/Canon.vos Model/Quote.vos Proofs/Quote.vos
+Props/C06.vo Props/C06.glob Props/C06.v.beautified Props/C06.required_vo: Props/C06.v Model/Term.vo Model/Canon.vo Proofs/Canon.vo Model/Quote.vo Proofs/Quote.vo Model/CanonLex.vo Proofs/CanonLex.vo
+Props/C06.vio: Props/C06.v Model/Term.vio Model/Canon.vio Proofs/Canon.vio Model/Quote.vio Proofs/Quote.vio Model/CanonLex.vio Proofs/CanonLex.vio
+Props/C06.vos Props/C06.vok Props/C06.required_vos: Props/C06.v Model/Term.vos Model/Canon.vos Proofs/Canon.vos Model/Quote.vos Proofs/Quote.vos Model/CanonLex.vos Proofs/CanonLex.vos
